@@ -19,9 +19,7 @@ class QuaHitList(HitList[QuaHit], QuaNoteList[QuaHit]):
             dict(StartTime="offset", Lane="column", KeySounds="keysounds"), axis=1
         )
         df.column -= 1
-        df = df.reindex(
-            df.columns.union(["offset", "column", "keysounds"], sort=False), axis=1
-        )
+        df = df.reindex(["offset", "column", "keysounds"], axis=1)
         df.offset = df.offset.fillna(0)
         df.column = df.column.fillna(0)
         df.keysounds = df.keysounds.apply(lambda k: k if isinstance(k, list) else [])
